@@ -77,6 +77,19 @@ def run(ctx):
             b = DL.observe(result, [])
             if isinstance(a, Exception) != isinstance(b, Exception) or (not isinstance(a, Exception) and (a.value != b.value or a.messages != b.messages)):
                 bad = "an identity transform changed the conversion result"
+        if not bad:
+            # "the returned element takes the original's place": the result is the original tree with every target replaced by what
+            # the transform returned for it (its children already transformed), everything else as it was
+            def ref(e):
+                if isinstance(e, D.HasChildren):
+                    e = e.copy(children=[ref(c) for c in e.children])
+                return family(k, [])(e) if isinstance(e, cls) else e
+            try:
+                same = (ref(doc) == result)
+            except Exception as ex:
+                same = "comparison raised %r" % ex
+            if same is not True:
+                bad = "the transformed document is not the original with each target replaced by the transform's result (%s)" % same
         if first is not None and not bad:
             if len(desc) != count(first, object) - 1:
                 bad = "get_descendants does not return every descendant exactly once"
@@ -122,7 +135,13 @@ def replay(ctx, rep):
     log = []
     entry = transforms.paragraph if r["entry"] == "paragraph" else transforms.run
     cls = D.Paragraph if r["entry"] == "paragraph" else D.Run
-    entry(family(r["family"], log))(doc)
+    result = entry(family(r["family"], log))(doc)
     exp = sum(count(c, cls) for c in children)
-    print("replay: calls", len(log), "targets", exp)
-    return 0 if len(log) == exp and all(isinstance(e, cls) for e in log) else 1
+
+    def ref(e):
+        if isinstance(e, D.HasChildren):
+            e = e.copy(children=[ref(c) for c in e.children])
+        return family(r["family"], [])(e) if isinstance(e, cls) else e
+    same = ref(doc) == result
+    print("replay: calls", len(log), "targets", exp, "result as specified:", same)
+    return 0 if len(log) == exp and all(isinstance(e, cls) for e in log) and same else 1
